@@ -402,7 +402,7 @@ pub fn generate(rng: &mut Rng, fault_free: bool) -> K18 {
     push(&mut events_b, &mut t, key("c:q"), 0);
     let gpsd_cli_offset = if !fault_free && rng.chance(0.12) { Some(*rng.pick(&[(0.5, 0.0), (0.0, 1.0), (-0.7, 0.8), (1.0, -1.0), (0.0, -0.3), (0.01, 0.01)])) } else { None };
     let rust_log = if !fault_free && rng.chance(0.3) { Some((*rng.pick(&["trace", "debug", "info", "rsadsb_common=trace", "radar=trace,adsb_deku=debug", "warn", ""])).to_string()) } else { None };
-    let gpsd_move = if gpsd_cli_offset.is_some() && rng.chance(0.4) { Some(*rng.pick(&[(0.1, 0.2), (-0.2, 0.15), (0.05, -0.3), (-0.25, -0.1), (0.0, 0.3), (0.25, 0.0)])) } else { None };
+    let gpsd_move = if gpsd_cli_offset.is_some() && rng.chance(0.4) && lines.windows(2).all(|w| w[0].0 != w[1].0) { Some(*rng.pick(&[(0.1, 0.2), (-0.2, 0.15), (0.05, -0.3), (-0.25, -0.1), (0.0, 0.3), (0.25, 0.0)])) } else { None };
     K18 { cols, rows, filter_time, locations, flags, lines, events_a, events_b, bulk, many: many || excursion, rx, gpsd_cli_offset, gpsd_move, rust_log }
 }
 
@@ -675,7 +675,18 @@ pub fn execute(sc: &K18) -> Outcome {
     let mut cur_rx = sc.rx;
     for l in &p.log {
         match l {
-            LogEv::Gpsd { fix: Some(f), .. } => cur_rx = *f,
+            LogEv::Gpsd { fix: Some(f), .. } => {
+                if (f.0 - cur_rx.0).abs() > 1e-9 || (f.1 - cur_rx.1).abs() > 1e-9 {
+                    if connected && client_consumed < delivered_lines {
+                        // the receiver moved while the client may still hold delivered lines it has
+                        // not processed (several lines in one read): whether those are filed with
+                        // the old or the new position is the client's business, the reference
+                        // cannot know — nothing is judged in such a run
+                        out.inconclusive = true;
+                    }
+                    cur_rx = *f;
+                }
+            }
             LogEv::Rd { t, kind, total, segs, .. } if kind == "data" => {
                 if *segs > 1 {
                     out.inconclusive = true;
